@@ -245,6 +245,9 @@ static void prop_richardson(Tape &t, Ctx &c) {
     double w = dm[t.pick(3)];
     std::vector<double> f = seeded_vec(t, n);
     double tol_drawn = t.logu(1e-10, 1e-2);
+    // unsymmetric cycles V/W(0,nu), V/W(nu,0), npre != npost (read last: older saved tapes keep their meaning)
+    { int z = static_cast<int>(t.u(0, 7)); if (z >= 4 && z <= 6) cfg.npre = 0; else if (z == 7) cfg.npost = 0; }
+    const bool symcycle = cfg.npre == cfg.npost;
 
     c.desc << "richardson " << S.g.family << " n=" << n << " contrast=" << S.mi.contrast << " kappa1=" << S.kappa1 << " | " << cfg.str() << " | damping=" << w << " A=" << dump_small(A, 6);
     c.label(std::string("coars:") + coars_name[cfg.coars]); c.label(std::string("relax:") + relax_name[cfg.relax]);
@@ -265,6 +268,34 @@ static void prop_richardson(Tape &t, Ctx &c) {
     Mat B = extract_operator(step->precond(), n);
     VF_REQUIRE(all_finite(B), "cycle operator has non-finite entries");
     double amin, amax; eig_sym(S.dense, amin, amax); double kappa2 = amax / amin;
+    if (!symcycle) {
+        // Unsymmetric cycle (npre != npost, in particular V/W(0,nu)): I - w B A is not self-adjoint in the A inner product, so
+        // only the convergence part of the clause is decided: for Galerkin hierarchies and A-norm convergent smoothers
+        // ||S^npost (I - P B_c R A) S^npre||_A < 1, hence rho(I - w B A) < 1 for 0 < w <= 1 and the iteration must make progress.
+        Mat E = Mat::Identity(n, n) - w * (B * S.dense);
+        Eigen::EigenSolver<Mat> es(E, false); double rho = 0; for (ptrdiff_t i = 0; i < n; ++i) rho = std::max(rho, std::abs(es.eigenvalues()[i]));
+        c.label("cycle:unsymmetric"); if (cfg.npre == 0) c.label("npre=0,ncycle=" + std::to_string(cfg.ncycle) + ",pre_cycles=" + std::to_string(cfg.pre_cycles));
+        c.label(bucket(rho, {0.1, 0.5, 0.9, 1.0}, "rho"));
+        c.desc << " | levels=" << li.levels << " rho=" << rho;
+        c.nontrivial = li.levels >= 2;
+        // known-finding regions of C02 in which contraction is not claimed (same predicates as props/c02_cycle.cpp)
+        double ov = cfg.effective_over_interp();
+        bool coarsest_psd = li.direct || (cfg.relax != GS && (cfg.npre + cfg.npost) % 2 == 0) || (cfg.relax == GS && cfg.npre == cfg.npost);
+        bool provable = coarsest_psd && (cfg.ncycle >= 2 || std::pow(ov, static_cast<double>(li.levels) - 1.0) < 2.0);
+        if (cfg.coars == AGG && ov > 1.0 && li.levels >= 2 && !provable) { if (c.known("F-agg")) return; }
+        if (cfg.relax != GS && li.levels >= 2 && worst_coarse_smoother_rho(step->precond()) >= 1.0) { if (c.known("F-smoother-coarse")) return; }
+        if (cfg.coars == EMIN && !emin_degenerate(step->precond(), cfg.eps_strong, true).empty()) { if (c.known("F-emin-residue")) return; }
+        VF_REQUIRE(rho < 1.0 - 1e-10, "Richardson does not converge: rho(I - w B A) = " << std::setprecision(12) << rho << " for a " << (cfg.ncycle == 1 ? "V" : "W") << "(" << cfg.npre << "," << cfg.npost << ") cycle with " << li.levels << " levels, pre_cycles=" << cfg.pre_cycles);
+        if (rho <= 0.9) { // the iteration itself: 40 steps reduce the error (rho^40 < 0.015; a factor 2 is left for the non-normal transient)
+            Eigen::PartialPivLU<Mat> lu(S.dense); Eigen::Map<const Vec> fv(f.data(), n); Vec xs = lu.solve(fv);
+            auto anorm = [&](const std::vector<double> &x) { Vec e(n); for (ptrdiff_t i = 0; i < n; ++i) e[i] = x[i] - xs[i]; return std::sqrt(std::max(0.0, e.dot(S.dense * e))); };
+            std::vector<double> x(n, 0.0); double e0 = anorm(x);
+            for (int k = 0; k < 40; ++k) { size_t it; double rep; std::tie(it, rep) = (*step)(f, x); if (it == 0) break; }
+            double e40 = anorm(x);
+            VF_REQUIRE(e40 <= 0.5 * e0 + 1e4 * U * kappa2 * e0, "Richardson made no progress in 40 steps: ||e||_A " << e0 << " -> " << e40 << " although rho = " << rho);
+        }
+        return;
+    }
     double mu_min, mu_max; VF_REQUIRE(eig_BA_symmetric(B, S.dense, mu_min, mu_max), "Cholesky of A failed");
     double rho = std::max(std::abs(1 - w * mu_min), std::abs(1 - w * mu_max));
     c.label(bucket(rho, {0.1, 0.5, 0.9, 1.0}, "rho"));
